@@ -241,7 +241,7 @@ SOUP = ([f"BEGIN:{c}\r\n" for c in COMPS] + [f"END:{c}\r\n" for c in COMPS] +
          ":", ";", ",", "=", '"', "\\", "\r\n", "\n", "\r\n ", "\t", " ", "\x00", "TZID=", "VALUE=DATE", "VALUE=PERIOD", "VALUE=",
          "Europe/Berlin", "/Europe/Berlin", "Europe", "UTC", "custom", "W. Europe Standard Time",
          "20200101", "20200101T000000", "20200101T000000Z", "T", "Z", "/", "P1D", "PT1H", "-P", "+0100", "-0500", "+2400", "+0100/",
-         "FREQ=YEARLY", "FREQ=SECONDLY", "FREQ=", "BYMONTH=", "BYMONTH=L", "BYDAY=", "UNTIL=", "INTERVAL=", ";", "BYDAY=-1SU", "BYMONTH=3", "UNTIL=20200101T000000Z", "COUNT=2", "1.5;2.5", "TRUE", "mailto:a@b",
+         "=,", ",,", ",:", "=;", '""', "P=a,", "FREQ=YEARLY", "FREQ=SECONDLY", "FREQ=", "BYMONTH=", "BYMONTH=L", "BYDAY=", "UNTIL=", "INTERVAL=", ";", "BYDAY=-1SU", "BYMONTH=3", "UNTIL=20200101T000000Z", "COUNT=2", "1.5;2.5", "TRUE", "mailto:a@b",
          "é", "﻿", "%2C", "a", "1", "-"])
 _soup = st.lists(st.one_of(st.sampled_from(SOUP), st.sampled_from(SOUP[:20]), st.characters(blacklist_categories=("Cs",))), max_size=60)
 
@@ -314,10 +314,10 @@ BAD_LINES = ["RRULE:FREQ=YEARLY;BYMONTH=", "RRULE:FREQ=YEARLY;BYDAY=,", "RRULE:F
              "PRIORITY:high", "SEQUENCE:1.5", "no colon here", ";=:", "X-A;P=\"unterminated:v", "X-A;=v:x", "X-A;P\x01=1:v", "X-A;P=a\x02b:v", ":value", "X-A;:v",
              "TRIGGER:soon", "EXDATE:20210101,notadate", "RDATE;VALUE=PERIOD:20210101T000000/x", "FREEBUSY:x/y", "TZOFFSETFROM:+25", "ATTACH;ENCODING=BASE64;VALUE=BINARY:%%%",
              "COMPLETED:2021-01-01", "DTSTART;VALUE=DATE:2021010", "X-A;P=1;P:v", "CREATED:99999999T999999Z", "RECURRENCE-ID:T", "DUE;TZID=:x", "REPEAT:x"]
-GOOD_LINES = ["X-A:anything goes", "COMMENT:fine", "DTEND;TZID=Europe/Berlin:20210302T111500", "PRIORITY:5", "GEO:1.5;2.5", "EXDATE:20210101T000000Z",
+GOOD_LINES = ["ATTENDEE;CN=a,:mailto:a@example.com", "X-A;P=x,,y:v", "X-A;LANGUAGE=,:v", "X-A;P=,a;Q=:v", 'X-A;P="",b:v', "X-A:anything goes", "COMMENT:fine", "DTEND;TZID=Europe/Berlin:20210302T111500", "PRIORITY:5", "GEO:1.5;2.5", "EXDATE:20210101T000000Z",
               "X-B;P=1;Q=\"a:b\":v", "LOCATION:somewhere\\, else", "URL:http://example.com/", "ATTENDEE;CN=A:mailto:a@example.com", "DESCRIPTION:", "X-C;P=:v",
               "RDATE;VALUE=DATE:20210101", "DURATION:PT1H", "STATUS:CONFIRMED", "COMPLETED:20210101T000000Z"]
-_frag = st.sampled_from([":", ";", "=", ",", '"', "\\", "DTSTART", "X-", "garbage", "2021", "T", "Z", "P", "\x01", "\x7f", "é", " ", "TZID=Europe/Berlin", "VALUE=DATE", "a"])
+_frag = st.sampled_from([":", ";", "=", ",", ",", "=,", ",,", "P=", '"', "\\", "DTSTART", "X-", "garbage", "2021", "T", "Z", "P", "\x01", "\x7f", "é", " ", "TZID=Europe/Berlin", "VALUE=DATE", "a"])
 
 
 def isolate_cases():
